@@ -71,6 +71,12 @@ def matrix(c, seed):
         Q2, _ = np.linalg.qr(H)
         sv = 10.0 ** (-p * np.arange(r) / max(1, r - 1))
         A = (Q1 * sv) @ Q2.T
+    elif kind in ('sign', 'signneg'):      # entries +-1: exact ties of modulus everywhere (Hadamard-like design matrices); a row that is the
+        i, j = np.meshgrid(np.arange(n), np.arange(r), indexing='ij')      # exact negative of another one
+        A = np.where(((i * (2 * j + 1) + (i // 2) * j + (i * i) // 3) % 2) == 0, 1.0, -1.0)
+        A[:, 0] = 1.0
+        if kind == 'signneg' and n > r:
+            A[n - 1] = -A[0]
     elif kind == 'perm':          # rows permuted so that the best rows come last
         A = G[::-1].copy()
     else:
@@ -114,6 +120,33 @@ def _basic(res, case, A, I, B, tags, what):
     tolI = 0.0 if what == 'rect' else 1e-12 * (1 + cond)
     res.check(dev <= tolI, what + '.B[I]=eye', case, lambda: 'max|B[I]-eye| = %.3e' % dev, tags)
     return True, cond
+
+
+def check_signs(c):
+    """EVERY matrix with entries +-1 of the given size, in a block of the enumeration (bit t of the code = entry t, row-major): exact ties
+    of modulus in every column, multipliers +-1 in the elimination, rows that are negatives of each other."""
+    res = Res()
+    n, r = c['n'], c['r']
+    for code in range(c['lo'], c['hi']):
+        res.ev()
+        A = np.array([1.0 if (code >> t) & 1 else -1.0 for t in range(n * r)]).reshape(n, r)
+        if np.linalg.matrix_rank(A) < r:
+            res.skip('rank-deficient sign matrix')
+            continue
+        case = dict(n=n, r=r, lo=code, hi=code + 1, _checker='signs')
+        with warnings.catch_warnings():
+            warnings.simplefilter('ignore')
+            I, B = teneva.maxvol(A, 1.05, 1000)
+        ok, cond = _basic(res, case, A, I, B, ['kind=allsigns'], 'maxvol')
+        if ok and cond is not None:
+            res.check(np.abs(B).max() <= 1.05 * (1 + 1e-12), 'maxvol.dominant', case, lambda: 'max|B| = %r > e' % np.abs(B).max(), ['kind=allsigns'])
+        if c.get('rect'):
+            with warnings.catch_warnings():
+                warnings.simplefilter('ignore')
+                I2, B2 = teneva.maxvol_rect(A, 1.1, 1, 2)
+            _basic(res, dict(case, rect=True), A, I2, B2, ['kind=allsigns'], 'rect')
+        res.nt((n, r, code))
+    return res
 
 
 def check_maxvol(c):
@@ -332,9 +365,9 @@ def check_forms(c):
     return res
 
 
-CHECKERS = {'maxvol': check_maxvol, 'rect': check_rect, 'forms': check_forms}
+CHECKERS = {'signs': check_signs, 'maxvol': check_maxvol, 'rect': check_rect, 'forms': check_forms}
 
-KINDS = ['gen', 'int', 'grad4', 'grad8', 'illc6', 'illc8', 'duprow', 'zerorow', 'restzero', 'restdup', 'perm']
+KINDS = ['gen', 'int', 'grad4', 'grad8', 'illc6', 'illc8', 'duprow', 'zerorow', 'restzero', 'restdup', 'perm', 'sign', 'signneg']
 
 
 def _cases(tier, seed):
@@ -361,6 +394,13 @@ def strata(tier, seed):
                   bounds={'r': sorted({c['r'] for c in cs}), 'n-r': [1, max(c['n'] - c['r'] for c in cs)],
                           'k': 'every limit 0..fixpoint+2, 100, default', 'e': cs[0]['es']})
     fm = [dict(c) for c in cs if not c.get('huge') and c['n'] - c['r'] >= 2 and c.get('tag', 0) == 0]
+    sg = []
+    for (n_, r_) in (((3, 2), (4, 2), (5, 2), (4, 3), (5, 3)) if tier == 'quick' else ((3, 2), (4, 2), (5, 2), (6, 2), (7, 2), (4, 3), (5, 3), (6, 3), (5, 4))):
+        tot = 2 ** (n_ * r_)
+        step = 1024 if tot > 1024 else tot
+        for lo in range(0, tot, step):
+            sg.append(dict(n=n_, r=r_, lo=lo, hi=min(tot, lo + step), rect=(n_ * r_ <= 12)))
+    yield Stratum('every +-1 matrix of small size', sg, 'signs', size=len(sg), chunk=1, bounds={'sizes': 'n x r up to 5 x 3 (6 x 3, 5 x 4 thorough)', 'matrices': sum(x['hi'] - x['lo'] for x in sg)})
     yield Stratum('argument forms', fm, 'forms', seq=True, size=len(fm), chunk=4, bounds={'forms': ['fortran', 'strided', 'int64', 'numpy scalars']})
     yield Stratum('rect-all-dr-pairs', [dict(c) for c in cs], 'rect', size=len(cs), chunk=2,
                   bounds={'dr_min': '-1..n-r+1', 'dr_max': '0..n-r+1 and None'})
